@@ -4505,7 +4505,10 @@ impl JsrPackageVersionInfoExt {
   pub fn get_subpath<'a>(&self, specifier: &'a Url) -> Option<&'a str> {
     let base_url = self.base_url.as_str();
     let base_url = base_url.strip_suffix('/').unwrap_or(base_url);
-    specifier.as_str().strip_prefix(base_url)
+    let sub_path = specifier.as_str().strip_prefix(base_url)?;
+    // only what lies below the package's url belongs to it: the url of
+    // version "1.0.0" is a string prefix of the one of "1.0.0-beta"
+    sub_path.starts_with('/').then_some(sub_path)
   }
 
   pub fn get_checksum(&self, sub_path: &str) -> Result<&str, ModuleLoadError> {
